@@ -142,7 +142,7 @@ theorem stepThread_effect {s s' : Shared} {stack stack' : List Frame}
   cases stack with
   | nil => simp [stepThread] at hs
   | cons f rest =>
-    obtain ⟨pc, id, late, ops, bf⟩ := f
+    obtain ⟨pc, id, late, ops, bf, sk⟩ := f
     cases pc <;> (try (cases ops <;> try (rename_i op ops'; cases op))) <;>
     simp only [stepThread, finish, startOp] at hs <;> (repeat' (split at hs)) <;>
     (try (simp only [Option.some.injEq, Prod.mk.injEq, reduceCtorEq] at hs)) <;>
